@@ -1,6 +1,6 @@
 (* C04 — resolution is log-spaced and monotone; averaging honours the overlap (statements only) *)
 From Coq Require Import ZArith List Reals.
-From SK Require Import Arith Sched SchedThms SchedThms2 SchedMono.
+From SK Require Import Arith Sched SchedThms SchedThms2 SchedMono SchedTerm.
 Import ListNotations.
 
 (* along every iterative LTF/LPSD plan (any admissible configuration, logfact > 0, x**0.5 the real square root):
@@ -12,6 +12,15 @@ Print Assumptions C04_plan_monotone.
 Theorem C04_step_monotone : forall (c : cfg RA), admissible c -> (0 < clogfact c)%R -> forall f1 f2 b1 b2, (0 < f1)%R -> (f1 <= f2)%R ->
   ltf_step RA sqrt_oracle c f1 = Some b1 -> ltf_step RA sqrt_oracle c f2 = Some b2 -> (bL b2 <= bL b1)%Z /\ (bK b1 <= bK b2)%Z.
 Proof. exact ltf_step_monotone. Qed.
+
+(* wherever the desired averaging is attainable (log-spaced regime, record long enough), at least Kdes averages are requested
+   before the position cap: round(1 + (N-L)/(xov L)) >= Kdes *)
+Theorem C04_Kdes_attained : forall (c : cfg RA) (fres : R), admissible c -> (0 < fres)%R -> (freslim RA c <= fres)%R ->
+  let L0 := r_rhu (cfs c / fres) in (1 <= L0)%Z ->
+  let x := (1 - colap c)%R in let a := (1 + x * IZR (cKdes c - 1))%R in
+  (a * (a - x / 2) <= IZR (cN c) * x)%R -> (cKdes c <= nseg_raw RA (rhuZ RA) c L0)%Z.
+Proof. exact Kdes_attained. Qed.
+Print Assumptions C04_Kdes_attained.
 
 (* K is the nearest integer to 1+(N-L)/((1-olap)L), or the cap N-L+1 (round-half-up and half-even variants) *)
 Theorem C04_K_nearest_iterative : forall (c : cfg RA) l, let k := capK RA c l (nseg_raw RA (rhuZ RA) c l) in
